@@ -6,7 +6,7 @@ THEOREMS = ["Kdf.Props.C16." + t for t in ("init_inv", "clear_inv", "vadd_chain"
     "directReadOk_tolerates", "directReadOk_empty", "pgtroot_story", "pgtroot_disciplined", "mapLinuxPgtroot_disciplined",
     "mapLinuxArm_disciplined", "mapLinuxArm_story", "xenver_disciplined", "xenver_tolerates", "derived_disciplined",
     "derived_names_cause", "ctxMalloc_disciplined", "ctxMalloc_fail_message", "ctxMalloc_ok_silent", "s390OsInfoAlloc_story", "s390OsInfoAlloc_disciplined",
-    "tryAltM_fst", "tryAltM_inv", "doOpM_fst", "doOpM_call_clean", "doOpM_fail_msg", "opTopM_fst", "op_success_clean", "op_failure_msg")]
+    "vmcoreinfoLookup_disciplined", "vmcoreinfoLookup_dot_is_miss", "vmcoreinfoLookup_fail_one_link", "tryAltM_fst", "tryAltM_inv", "doOpM_fst", "doOpM_call_clean", "doOpM_fail_msg", "opTopM_fst", "op_success_clean", "op_failure_msg")]
 BUFSZ = [64, 80, 160]          # ERRBUF of addrxlat ctx, bitmap objects, kdump ctx
 
 
@@ -115,7 +115,10 @@ def api_scenarios(R):
                     want = "vsym ok %d" % vsyms[nm]
                 elif ost == "linux" and op == "vline" and nm in dict(vrows):
                     want = "vline ok %s." % dict(vrows)[nm].encode().hex()
-                vexp[len(lines)] = (op, nm, ost, want)
+                # the class of the name for the model (lean/Kdf/Model/ErrFlow.lean vmcoreinfoLookup, driver stream `flow`)
+                look = ("noos" if ost is None else "notable" if ost != "linux" else "dot" if nm.startswith(".") else
+                        "found" if want is not None else "miss")
+                vexp[len(lines)] = (op, nm, ost, want, "vmci %s %s %s" % ("sym" if op == "vsym" else "line", look, ost or "-"))
                 lines.append("%s %s" % (op, hx))
     # a file name that was set and removed again must not be used by the message of a later failing open
     lines += ["open 1 %s" % paths[0], "setfn /var/crash/2026-09-30/an-earlier-dump-file-name-long-enough-to-live-on-the-heap.dump", "setfn -",
@@ -136,10 +139,14 @@ def api_scenarios(R):
         rc2, out2, err2 = R.run_harness(exe2, stdin_text="\n".join(l2) + "\n")
         lines += l2; obs += kdf.obs(out2); rc = rc or rc2; err += err2
     fail = None
-    for i, (op, nm, ost, want) in sorted(vexp.items()):
+    vm_m, vm_want = [], []
+    for i, (op, nm, ost, want, ml) in sorted(vexp.items()):
         if i >= len(obs):
             break
-        o = obs[i]
+        o, _, emsg = obs[i].partition(" | ")
+        vm_m.append(ml)
+        vm_want.append(("kdump_vmcoreinfo_%s(ctx, %r) with addrxlat.ostype %s" % ("symbol" if op == "vsym" else "line", nm, ost or "unset"),
+                        "%s | %s" % (o.split()[1], emsg)))
         call = "kdump_vmcoreinfo_%s(ctx, %r) with addrxlat.ostype %s on an ELF dump whose VMCOREINFO is %r" % (
             "symbol" if op == "vsym" else "line", nm, ost or "unset", vtxt.decode())
         k0 = max(k for k in range(i + 1) if lines[k].startswith("open "))
@@ -164,6 +171,7 @@ def api_scenarios(R):
         errl = [l for l in err.strip().split("\n") if "WARNING: AddressSanitizer failed to allocate" not in l]
         fail = ("API scenario harness stopped (rc=%s) near '%s': %s" % (rc, lines[k][:120], " | ".join(errl[:6])[:700]),
                 "\n".join(lines[max(0, k - 40):k + 1]))
+    api_scenarios.model = (vm_m, vm_want)
     return lines, fail, len(obs)
 
 
@@ -584,15 +592,19 @@ def run(R):
         if f and not fail and not api_fail:
             rp = dict(f[1]); rp["broken_theorems"] = proof["broken"]
             R.violation(f[0], rp)
-    flow_model = kdf.obs(R.run_driver("flow", "\n".join(os_m + fl_m) + "\n")) if (os_m or fl_m) else []
-    flow_impl = [o for w, o in os_want] + [o.split(None, 1)[1].replace(" C16:empty-message", "").replace(" C16:stale-message", "") for w, o in fl_want]
+    vm_m, vm_want = getattr(api_scenarios, "model", ([], []))
+    if api_fail:
+        vm_m, vm_want = [], []
+    flow_model = kdf.obs(R.run_driver("flow", "\n".join(os_m + fl_m + vm_m) + "\n")) if (os_m or fl_m or vm_m) else []
+    flow_impl = [o for w, o in os_want] + [o.split(None, 1)[1].replace(" C16:empty-message", "").replace(" C16:stale-message", "") for w, o in fl_want] + \
+        [o for w, o in vm_want]
     flow_mism = kdf.diff_streams(flow_impl, flow_model)
     if flow_mism is not None and not (fail or api_fail or os_fail or fl_fail):
-        what = (os_want + [(l, o) for l, o in fl_want])[flow_mism][0] if flow_mism < len(flow_impl) else "(stream length)"
+        what = (os_want + [(l, o) for l, o in fl_want] + vm_want)[flow_mism][0] if flow_mism < len(flow_impl) else "(stream length)"
         R.violation("error-message discipline: implementation and model disagree on '%s': implementation '%s', model '%s'" % (
                         what[:160], flow_impl[flow_mism][:200] if flow_mism < len(flow_impl) else None,
                         flow_model[flow_mism][:200] if flow_mism < len(flow_model) else None),
-                    dict(stream="flow", model_line=(os_m + fl_m)[flow_mism] if flow_mism < len(os_m + fl_m) else None, call=what,
+                    dict(stream="flow", model_line=(os_m + fl_m + vm_m)[flow_mism] if flow_mism < len(os_m + fl_m + vm_m) else None, call=what,
                          impl=flow_impl[flow_mism] if flow_mism < len(flow_impl) else None,
                          model=flow_model[flow_mism] if flow_mism < len(flow_model) else None, broken_theorems=proof["broken"]),
                     found_input=False)
